@@ -313,17 +313,24 @@ impl Check for C17 {
     }
     fn cases(&self, tier: Tier) -> u64 {
         match tier {
-            Tier::Quick => 130,
+            Tier::Quick => 130 + 104,
             Tier::Thorough => 1600,
         }
     }
-    fn gen(&self, seed: u64, i: u64, _tier: Tier) -> Value {
+    fn gen(&self, seed: u64, i: u64, tier: Tier) -> Value {
         let r = Rng::new(crate::harness::case_seed(seed, "C17", i));
         let setups: Vec<Setup> = Setup::all_extended();
         let mut setup = setups[(i % setups.len() as u64) as usize].clone();
         // not always the default output directory (a fall-back to defaults must be visible)
         setup.out = ["app/src/generated", "app/src/bindings", "app/src/lib/api"][((i / 13) % 3) as usize].to_string();
-        let kind_ix = (i / setups.len() as u64) % 5;
+        // the quick tier ends with the full product setup x obstacle of the (cheap) unusable-path
+        // scenarios, all with a non-default output directory
+        let quick_tail: Option<u64> = if tier == Tier::Quick && i >= 130 { Some(i - 130) } else { None };
+        if let Some(j) = quick_tail {
+            setup = setups[(j % setups.len() as u64) as usize].clone();
+            setup.out = ["app/src/bindings", "app/src/lib/api"][(j % 2) as usize].to_string();
+        }
+        let kind_ix = if quick_tail.is_some() { 3 } else { (i / setups.len() as u64) % 5 };
         let kind = match kind_ix {
             0 | 1 => "enumerate",
             2 | 4 => "sequence", // 4: the read-only-directory sequence
@@ -414,7 +421,10 @@ impl Check for C17 {
         // unusable cases are the blocks q with (i / #setups) % 5 == 3; inside a block every setup
         // occurs once: let the obstacle walk with block and setup so that all pairs get met
         let q = i / setups.len() as u64 / 5;
-        let obstacle = obstacles[((q + i % setups.len() as u64) % obstacles.len() as u64) as usize].to_string();
+        let obstacle = match quick_tail {
+            Some(j) => obstacles[((j / setups.len() as u64) % obstacles.len() as u64) as usize].to_string(),
+            None => obstacles[((q + i % setups.len() as u64) % obstacles.len() as u64) as usize].to_string(),
+        };
         serde_json::to_value(Case {
             kind: kind.into(),
             prestate,
